@@ -25,7 +25,10 @@ func (c14) Level() string { return "exploration" }
 func (c14) Rule() string {
 	return "byte strings up to 64 KiB: uniformly random (log-uniform lengths), every prefix of valid messages of every zoo shape, and structure-aware mutations driven by the reference decoder's annotation of a valid message (tag swaps, class/type/ref index edits to {-1, size, size+1, 2^31-1}, length/count edits to {0, +-1, 255, 256, 65535, 2^31-1, -1}, type-name edits, delete/duplicate/transpose of whole sub-values, byte flips/insertions/removals), against type maps {complete, empty, one class missing, adversarial}; entry points ToObject, Decoder.Decode, Decoder.ReadFrom, repeated Decoder.ReadObject to end of input, Serializer.ToObject / ReadFrom / Read. Each case runs in a child process under RLIMIT_AS with a journal. Oracle: the call returns (no panic, no process death), bytes allocated <= 1 MiB + 4096*len, reader calls <= 4096 + 64*len (metered reader aborts at the budget), CPU <= 20 s. Non-trivial = input is not a valid message; distinct by input hash."
 }
-func (c14) ProcOpts() Proc { return Proc{RlimitAS: 4 << 30, StallSec: 240} }
+
+// every call is journalled and bounded by 20 CPU-seconds: a worker that has used 30 CPU-seconds
+// since its last journal line is inside a call that exceeded the bound and did not return
+func (c14) ProcOpts() Proc { return Proc{RlimitAS: 4 << 30, StallSec: 45, StallCPU: 30} }
 func (c14) FatalFeatures(c Case) []string {
 	return []string{"kind=" + c.Kind}
 }
@@ -116,6 +119,67 @@ func craftedInputs() [][]byte {
 		deep2[i] = 'H'
 	}
 	out = append(out, deep2)
+	// small acyclic messages in which container #k holds container #k-1 TWICE (by reference): 2^depth
+	// paths lead to the innermost one; any pass that walks a decoded graph per path never finishes
+	cint := func(k int) []byte {
+		if k <= 47 {
+			return []byte{byte(0x90 + k)}
+		}
+		return []byte{byte(0xc8 + k>>8), byte(k)}
+	}
+	for _, depth := range []int{24, 40, 60, 200, 1500} {
+		b := []byte{0x57, 0x79, 0x91} // top list (#0), then #1 = [1]
+		for k := 1; k <= depth; k++ {
+			b = append(b, 0x7a, 0x51)
+			b = append(b, cint(k)...)
+			b = append(b, 0x51)
+			b = append(b, cint(k)...)
+		}
+		out = append(out, append(b, 'Z'))
+		m := []byte{0x57, 'H', 0x01, 'a', 0x91, 'Z'} // top list (#0), then #1 = {a:1}
+		for k := 1; k <= depth; k++ {
+			m = append(m, 'H', 0x01, 'a', 0x51)
+			m = append(m, cint(k)...)
+			m = append(m, 0x01, 'b', 0x51)
+			m = append(m, cint(k)...)
+			m = append(m, 'Z')
+		}
+		out = append(out, append(m, 'Z'))
+	}
+	// registered container type names in the wrong place: a typed map under the name of ANOTHER registered
+	// map type where a map-typed destination expects its own, typed lists under another list's name
+	enc := func(v *hspec.Value) {
+		b, _ := hspec.Encode(v, hspec.Canonical{}, hspec.EncOpts{})
+		out = append(out, b)
+	}
+	tmap := func(name string, kv ...*hspec.Value) *hspec.Value {
+		m := hspec.Map(name, kv...)
+		m.MapTyped = true
+		return m
+	}
+	for _, names := range [][2]string{{"com.example.Totals", "com.example.Counts"}, {"com.example.Counts", "com.example.Counts"}, {"com.example.Totals", "com.example.Totals"}, {"[int32", "[string"}} {
+		enc(hspec.Object("MpNamed", []string{"groups", "sum"},
+			hspec.Map("", hspec.String("k"), tmap(names[0], hspec.String("a"), hspec.Int(1)), hspec.String("l"), tmap(names[0], hspec.String("b"), hspec.Int(2))),
+			tmap(names[1], hspec.String("c"), hspec.Int(3))))
+		enc(hspec.Object("NamedMapHolder", []string{"m", "n"}, tmap(names[0], hspec.String("a"), hspec.Int(1)), hspec.Int(2)))
+		enc(hspec.Object("MpStrMp", []string{"m"}, hspec.Map("", hspec.String("o"), tmap(names[0], hspec.String("a"), hspec.String("x")))))
+		enc(hspec.Object("SlMap", []string{"v"}, hspec.List("", tmap(names[0], hspec.String("a"), hspec.Int(1)), tmap(names[1], hspec.String("a"), hspec.Int(1)))))
+	}
+	for _, names := range [][2]string{{"[int32", "[string"}, {"[string", "[int64"}, {"[zoo.Inner", "[int32"}, {"com.example.InnerList", "[string"}} {
+		enc(hspec.Object("TwoSlices", []string{"a", "b"}, hspec.List(names[0], hspec.Int(1), hspec.Int(2)), hspec.List(names[1], hspec.String("x"))))
+		enc(hspec.Object("SlSl", []string{"v"}, hspec.List("", hspec.List(names[0], hspec.Int(1)), hspec.List(names[1], hspec.Int(2)))))
+	}
+	// the same doubling inside a typed destination: SlIface.V / MpStrAny.M hold the chain
+	for _, depth := range []int{30, 60} {
+		b := hspecHx("C x07 SlIface x91 x01 v x60 x57 x79 x91")
+		for k := 2; k <= depth; k++ { // object #0, v list #1, [1] #2
+			b = append(b, 0x7a, 0x51)
+			b = append(b, cint(k)...)
+			b = append(b, 0x51)
+			b = append(b, cint(k)...)
+		}
+		out = append(out, append(b, 'Z'))
+	}
 	return out
 }
 
@@ -168,6 +232,7 @@ func c14run(env *Env, res *Result, c Case, sub int, input []byte, tmName string,
 		tmKeys[k] = t
 	}
 	for ei, entry := range c14entries {
+		env.J(cc.Idx, cc.Sub) // one journal line per CALL: the parent's watchdog and CPU bound apply to a single call
 		res.Evals++
 		res.Count("entry="+entry, 1)
 		ff := append([]string{"entry=" + entry}, base...)
@@ -223,6 +288,7 @@ func c14run(env *Env, res *Result, c Case, sub int, input []byte, tmName string,
 		})
 		cpu := mon.CPUSeconds() - cpu0
 		res.Max("alloc_bytes_per_call", int64(alloc))
+		res.Max("cpu_ms_per_call", int64(cpu*1000))
 		changed := len(tm) != tmLen
 		for k, t0 := range tmKeys {
 			if tm[k] != t0 {
